@@ -2,6 +2,7 @@
 mod engine;
 mod exact;
 mod props;
+mod pu;
 mod report;
 mod world;
 
